@@ -294,6 +294,28 @@ def logicals (args : List (Res F)) : List Bool :=
   (flatVals args).filterMap fun v => match v with
     | .num x => some (!Num.isZero x) | .bool b => some b | _ => none
 
+/-- what one entry contributes to `SUMPRODUCT`: a number itself, anything else (text — also text that
+looks like a number —, a logical, a blank) zero -/
+def spTerm (v : Val F) : F :=
+  match v with
+  | .num x => x
+  | _ => Num.zero
+
+/-- `SUMPRODUCT(array1, array2, …)`: the arrays must have one shape (else `#VALUE!`); the products of
+corresponding entries are added, row by row; an error value anywhere is returned (the first in
+argument order) -/
+def sumproductFn (args : List (Res F)) : Val F :=
+  match firstErr (flatVals args) with
+  | some e => .err e
+  | none =>
+    match args.map Res.toArr with
+    | [] => .err .value
+    | a :: rest =>
+      if rest.all (fun b => b.length == a.length && (b.map List.length) == (a.map List.length)) then
+        fin (fsum ((List.range a.flatten.length).map fun i =>
+          fprod ((a :: rest).map fun b => spTerm (b.flatten.getD i .blank))))
+      else .err .value
+
 def xorFn (args : List (Res F)) : Val F :=
   match firstErr (flatVals args) with
   | some e => .err e
@@ -467,6 +489,7 @@ def libFn (name : String) (args : List (Res F)) : Option (Except EvalErr (Res F)
   | some v => some (.ok (one1 v))
   | none =>
   if name = "XOR" then some (.ok (one1 (xorFn args)))
+  else if name = "SUMPRODUCT" then some (.ok (one1 (sumproductFn args)))
   else if name = "AND" then some (.ok (evalAndOr true args))
   else if name = "OR" then some (.ok (evalAndOr false args))
   else if name = "CONCAT" then some (.ok (one1 (concatFn args)))
